@@ -227,8 +227,9 @@ def fmt_kw(kw):
             t += ":%s" % kw.get("second_of_minute", 0)
             if "second_of_minute_decimal" in kw:
                 t += "+%r s" % kw["second_of_minute_decimal"]
-    return "%s%s%+03d:%02d" % (d, t, kw.get("time_zone_hour", 0),
-                               abs(kw.get("time_zone_minute", 0)))
+    tzh, tzm = kw.get("time_zone_hour", 0), kw.get("time_zone_minute", 0)
+    return "%s%s%s%02d:%02d" % (d, t, "-" if (tzh < 0 or tzm < 0) else "+",
+                               abs(tzh), abs(tzm))
 
 
 def sp(obj):
